@@ -2,6 +2,7 @@
 # harness-side specification (plain Python, the mathematical definition):
 #  (1) ARRAY_AGG of a list-valued argument: one element PER RECORD (a list argument is one element, not spliced), so its length
 #      equals COUNT(*) of the group - both ports;
+#  (3) numeric strings in exponent / leading-point / explicit-sign notation under AVG - both ports;
 #  (2) lower-case min / max with a single argument that is neither str nor int nor float (here: fractions.Fraction, by way of user
 #      init code): still the AGGREGATE of the right kind (minimum for min, maximum for max) - Python port.
 import json
@@ -52,6 +53,37 @@ def gen_fraction_cases(ctx):
     return out
 
 
+def gen_notation_cases(ctx):
+    """numeric strings in the notations both languages' conversions accept beyond plain decimals: exponent, leading point, explicit sign"""
+    r = ctx.rng
+    out = []
+    for _ in range(100 if ctx.tier == 'quick' else 10000):
+        A = [[r.choice(['k', 'm']), r.choice(['1e3', '.5', '+3', '2.5E-1', '-.25', '7', '0.5', '1E+2', ' 4 '])] for _ in range(r.randint(1, 6))]
+        grp = r.random() < 0.6
+        q = 'select %sAVG(a2)%s' % ('a1, ' if grp else '', ' group by a1' if grp else '')
+        avg = lambda g: sum(float(x[1]) for x in g) / len(g)
+        exp = [[k, avg(g)] for k, g in spec_groups(A, lambda x: x[0])] if grp else [[avg(A)]]
+        out.append({'q': q, 'qjs': q, 'A': A, 'B': None, 'exp': exp, 'part': 'c03x_notation'})
+    return out
+
+
+def close_rows(c, e, g):
+    if not isinstance(g, list) or len(g) != len(e):
+        return False
+    for re_, rg in zip(e, g):
+        if len(re_) != len(rg):
+            return False
+        for x, y in zip(re_, rg):
+            if isinstance(x, float):
+                if isinstance(y, dict) and 'f' in y:
+                    y = float.fromhex(y['f']) if isinstance(y['f'], str) else float(y['f'])
+                if not isinstance(y, (int, float)) or abs(x - y) > 1e-12 * max(1.0, abs(x)):
+                    return False
+            elif x != y:
+                return False
+    return True
+
+
 def rows_py(g):
     if not isinstance(g, dict) or g.get('error') is not None or 'rows' not in g:
         return g
@@ -69,6 +101,15 @@ def run(ctx, theorem):
     fc = gen_fraction_cases(ctx)
     gf = lib.run_impl_py('c03x', fc, shards=4)
     ctx.compare([dict(c, impl='py') for c in fc], [c['exp'] for c in fc], [rows_py(g) for g in gf], theorem + THEOREM_NOTE, describe=desc)
+    nc = gen_notation_cases(ctx)
+    gnp = lib.run_impl_py('c03x', nc, shards=4)
+    gnj = lib.run_impl_js('engine', nc, shards=4)
+    ctx.compare([dict(c, impl='py') for c in nc], [c['exp'] for c in nc], [rows_py(g) for g in gnp], theorem + THEOREM_NOTE, rel=close_rows, describe=desc,
+                corrupt=lambda e: e + [['CANARY']])
+    ctx.compare([dict(c, impl='js') for c in nc], [c['exp'] for c in nc], [rows_py(g) for g in gnj], theorem + THEOREM_NOTE, rel=close_rows, describe=desc,
+                corrupt=lambda e: e + [['CANARY']])
+    ctx.count(2 * len(nc))
+    ctx.stat('numeric_notation_cases', len(nc))
     ctx.count(2 * len(ac) + len(fc))
     ctx.stat('array_agg_list_argument_cases', len(ac))
     ctx.stat('non_primitive_minmax_cases', len(fc))
@@ -82,4 +123,4 @@ def replay(ctx, case, theorem):
     c = {k: v for k, v in case.items() if k != 'impl'}
     g = lib.run_impl_js('engine', [c], shards=1) if impl == 'js' else lib.run_impl_py('c03x', [c], shards=1)
     ctx.count()
-    ctx.compare([case], [c['exp']], [rows_py(g[0])], theorem + THEOREM_NOTE)
+    ctx.compare([case], [c['exp']], [rows_py(g[0])], theorem + THEOREM_NOTE, rel=close_rows if c.get('part') == 'c03x_notation' else None)
